@@ -1636,7 +1636,8 @@ void x509FreeExtensions(x509v3extensions_t *extensions)
         {
             inc = active->next;
             psFree(active->data, extensions->pool);
-            if (active->oidLen > 0)
+            /* a zero-length otherName OID still owns an allocation */
+            if (active->oid != NULL)
             {
                 psFree(active->oid, extensions->pool);
             }
@@ -1652,7 +1653,8 @@ void x509FreeExtensions(x509v3extensions_t *extensions)
         {
             inc = active->next;
             psFree(active->data, extensions->pool);
-            if (active->oidLen > 0)
+            /* a zero-length otherName OID still owns an allocation */
+            if (active->oid != NULL)
             {
                 psFree(active->oid, extensions->pool);
             }
@@ -3011,6 +3013,10 @@ static int32_t parseGeneralNames(psPool_t *pool, const unsigned char **buf,
                 return -1;
             }
             activeName->oid = psMalloc(pool, activeName->oidLen);
+            if (activeName->oid == NULL)
+            {
+                return PS_MEM_FAIL;
+            }
             if ((uint32) (extEnd - p) < activeName->oidLen)
             {
 
